@@ -438,6 +438,8 @@ func TestVerifC04(t *testing.T) {
 	scs := []*verifx.Scenario{
 		vs.E1(t, "session/2025-06-18", env.Pick(1, 2), vs.Options{}, func() vs.Verdict { return c04Sessions("2025-06-18") }),
 		vs.E1(t, "scripted-peer", env.Pick(2, 3), vs.Options{}, func() vs.Verdict { return c04Scripted() }),
+		vs.E1(t, "streamable/abandoned-nested-call/no-standalone-stream", env.Pick(1, 2), vs.Options{}, func() vs.Verdict { return c10UpcallCancel("c04 nested-cancel", false, false) }),
+		vs.E1(t, "streamable/abandoned-nested-call", env.Pick(1, 2), vs.Options{}, func() vs.Verdict { return c10UpcallCancel("c04 nested-cancel", false, true) }),
 		vs.E1(t, "raw-server/cancel-by-id/2025-06-18", env.Pick(1, 2), vs.Options{}, func() vs.Verdict { return c04RawServer("2025-06-18") }),
 	}
 	env.Run(scs)
